@@ -17,7 +17,8 @@ ID = 'C06'
 RULE = ('integer-valued rasters up to 10x10 (float64/float32/int32/int64, a few NaN/inf cells) with unit, non-square, '
         'descending, offset and (NumPy only) non-uniform integer coordinates; target layouts: single target at every kind '
         'of position, sparse, dense, lines/diagonals, no target, all targets, layouts on which the GDAL heuristic is inexact; '
-        'targets by the default rule and by explicit target_values; metrics EUCLIDEAN / MANHATTAN (compared cell by cell with '
+        'targets by the default rule and by explicit target_values (incl. values float32 cannot represent: int64 ids around 2**24, '
+        '0.1, 1e-50, 1e39); cells taller than wide; max_distance attained exactly (radius 2, Manhattan 3, 3-4-5) and 0 / 0.0; metrics EUCLIDEAN / MANHATTAN (compared cell by cell with '
         'the model: distance key, allocation, bearing) and GREAT_CIRCLE (oracle only, tolerance 1e-6); max_distance in '
         '{0, fractions of a cell, 1, sqrt2, 2, sqrt5, ..., multiples of the cell size, inf}. proximity, allocation and '
         'direction are all called on every case. A case is non-trivial when it has at least one target and one non-target cell.')
@@ -91,6 +92,8 @@ def _call3(case, dask_chunks=None, only=None):
     P = importlib.import_module('xrspatial.proximity')
     md = case['max_distance']
     md = INF if md in ('inf', None) else float(md)
+    if case.get('md_int') and md != INF:
+        md = int(md)
     out = {}
     for name in ('proximity', 'allocation', 'direction'):
         if only and name not in only:
@@ -112,6 +115,23 @@ def _call3(case, dask_chunks=None, only=None):
     return out
 
 
+def _call_pair(case_a, case_b, chunks, name):
+    """two lazy Dask results computed TOGETHER (dask.compute(a, b)): graph keys of different rasters must not collide"""
+    import importlib
+    import dask
+    P = importlib.import_module('xrspatial.proximity')
+    lazies = []
+    for case in (case_a, case_b):
+        md = case['max_distance']
+        md = INF if md in ('inf', None) else float(md)
+        r = _build_raster(case, chunks)
+        lazies.append(getattr(P, name)(r, target_values=list(case.get('tv', [])), max_distance=md,
+                                       distance_metric=case.get('metric', 'EUCLIDEAN')).data)
+    vals = dask.compute(*lazies)
+    return {'pair': [{'dtype': str(np.asarray(v).dtype), 'v': [[float(x) for x in row] for row in np.asarray(v).tolist()]}
+                     for v in vals]}
+
+
 def worker_main():
     import warnings
     warnings.filterwarnings('ignore')
@@ -125,6 +145,8 @@ def worker_main():
                 res = _call3(req['case'], None, req.get('only'))
             elif req['op'] == 'dask3':
                 res = _call3(req['case'], req['chunks'], req.get('only'))
+            elif req['op'] == 'dask_pair':
+                res = _call_pair(req['case'], req['case_b'], req['chunks'], req['name'])
             else:
                 res = {'fatal': 'unknown op'}
         except Exception as e:
@@ -261,14 +283,14 @@ def key_params(metric, xs, ys, md):
     return R, M, ties
 
 
-def tok_xv(v):
-    if isinstance(v, float):
-        if math.isnan(v):
-            return 'nan'
-        if math.isinf(v):
-            return 'inf' if v > 0 else '-inf'
-        assert v == int(v), v
-    return str(int(v))
+def xv_tokens(case):
+    """(target_values tokens, cell tokens row-major): finite values of one case are embedded into Z by a common
+    power-of-two scale (exact, order preserving; the target test only compares values)"""
+    from harness import xvio
+    data = cast_data(case)
+    tv = [float(v) for v in case.get('tv', [])]
+    s = xvio.scale_for([v for row in data for v in row] + tv)
+    return [xvio.tok(v, s) for v in tv], [xvio.tok(v, s) for row in data for v in row]
 
 
 def model_line(case):
@@ -281,11 +303,11 @@ def model_line(case):
     data = cast_data(case)
     h = len(data)
     w = len(data[0]) if h else 0
-    tv = [float(v) for v in case.get('tv', [])]
+    tvt, cellt = xv_tokens(case)
     return 'prox %d %d %s %s %s %d %s %d %s %d %s %d %d %s' % (
         2 if metric == 'MANHATTAN' else 0, len(ties), ' '.join(map(str, ties)), R, M,
         len(xs), ' '.join(map(str, xs)), len(ys), ' '.join(map(str, ys)),
-        len(tv), ' '.join(tok_xv(v) for v in tv), h, w, ' '.join(tok_xv(v) for row in data for v in row))
+        len(tvt), ' '.join(tvt), h, w, ' '.join(cellt))
 
 
 def cast_data(case):
@@ -404,6 +426,14 @@ def square_cells(xs, ys):
     return len(d) <= 1
 
 
+def surely_within(dist, md):
+    """dist (a float32 distance) is within max_distance beyond any float32 rounding doubt: clearly below it, or exactly
+    equal with an exactly representable square (so dist**2 <= max_distance**2 holds in every precision)"""
+    if dist * (1 + 3e-7) <= md:
+        return True
+    return dist == md and float(np.float32(dist) * np.float32(dist)) == dist * dist
+
+
 def oracle(ctx, case, impl, what='numpy', exact_small=True):
     """checks the C06 statement on the implementation's three outputs; returns True when clean"""
     metric = case.get('metric', 'EUCLIDEAN')
@@ -471,17 +501,29 @@ def oracle(ctx, case, impl, what='numpy', exact_small=True):
             if exact_small and h * w <= 12 and square_cells(xs, ys):
                 if md == INF and not close(p, nearest):
                     return bad('small grid: proximity %r is not the exact nearest distance %r' % (p, nearest), r, c, nearest=nearest)
-    # a cell with no target within max_distance is NaN in all three outputs (checked above for consistency);
-    # conversely with a single target every cell within max_distance must be reached
+    # a cell with no target within max_distance is NaN in all three outputs; conversely a cell that HAS a target within
+    # max_distance must not be NaN.  "Within" includes exact equality (radius 2 on a unit grid, Manhattan radius 3,
+    # 3-4-5 offsets); only genuine float32 rounding of the squared distance is tolerated.  The converse is demanded
+    # where the four-sweep propagation is bound to deliver the target: a single target, the small grids on which the
+    # algorithm is exact, and targets in the same row or column as the cell (carried by pan_near straight along it).
+    small = exact_small and h * w <= 12 and square_cells(xs, ys)
     for r in range(h):
         for c in range(w):
             p = P[r][c]
-            ds = [true_dist(metric, xs[c], ys[r], xs[tc], ys[tr]) for tr, tc in targets]
-            nearest = min(ds) if ds else None
+            ds = [(true_dist(metric, xs[c], ys[r], xs[tc], ys[tr]), tr, tc) for tr, tc in targets]
+            nearest = min(x[0] for x in ds) if ds else None
             if nearest is not None and nearest > max(md, f32(md)) and not math.isnan(p) and not (gc and close(nearest, md)):
                 return bad('no target within max_distance (nearest %r) but proximity is %r' % (nearest, p), r, c)
-            if len(targets) == 1 and nearest is not None and nearest <= md * (1 - 1e-6) and math.isnan(p) and not gc:
-                return bad('single target at distance %r <= max_distance but the cell is NaN' % nearest, r, c)
+            if not math.isnan(p) or gc or md == INF:
+                continue
+            for dist, tr, tc in ds:
+                if not surely_within(dist, md):
+                    continue
+                if len(targets) == 1:
+                    return bad('single target at distance %r <= max_distance but the cell is NaN' % dist, r, c, nearest=dist)
+                if small or tr == r or tc == c:
+                    return bad('target (%d,%d) at distance %r <= max_distance but the cell is NaN' % (tr, tc, dist), r, c,
+                               nearest=dist)
     return True
 
 
@@ -566,6 +608,12 @@ def gen_layout(rng, h, w, kind):
             g[r][c] = val()
     elif kind == 'none':
         pass
+    elif kind == 'multi':
+        # >= 3 targets, every one its own value
+        k = 1
+        for r, c in rng.sample(cells, min(len(cells), rng.randint(3, 7))):
+            g[r][c] = k
+            k += 1
     elif kind == 'distinct':
         # every target its own value: allocation identifies the remembered cell uniquely
         k = 1
@@ -576,7 +624,8 @@ def gen_layout(rng, h, w, kind):
     return g
 
 
-LAYOUTS = ['single', 'single', 'sparse', 'sparse', 'dense', 'line', 'diag', 'edges', 'distinct', 'distinct', 'all', 'none']
+LAYOUTS = ['single', 'multi', 'sparse', 'sparse', 'dense', 'line', 'diag', 'edges', 'distinct', 'multi', 'all', 'none',
+           'single', 'multi', 'distinct']
 COORDS = ['unit', 'unit', 'desc', 'nonsquare', 'nonsquare_desc', 'nonuniform']
 
 
@@ -592,6 +641,14 @@ def gen_case(rng, i, small=False, metric=None):
     xkind = rng.choice(COORDS)
     ys = gen_coords(rng, h, ykind)
     xs = gen_coords(rng, w, xkind)
+    if rng.random() < 0.25:
+        # cells taller than wide (dy > dx, non-integer ratio included): vertical neighbours are farther than horizontal ones
+        sx, sy = rng.choice([(5, 9), (1, 2), (2, 3), (2, 5), (5, 9)])
+        xs = [sx * j for j in range(w)]
+        ys = [sy * j for j in range(h)]
+        if rng.random() < 0.4:
+            ys = ys[::-1]
+        ykind = xkind = 'tall'
     dtype = rng.choice(['float64', 'float64', 'float32', 'int32', 'int64'])
     data = [[float(v) for v in row] for row in g]
     tv = []
@@ -683,6 +740,57 @@ def hard_cases():
     return out
 
 
+def base_case(g, **kw):
+    h, w = len(g), len(g[0])
+    c = dict(fn='numpy3', layout='special', metric='EUCLIDEAN', data=[[float(v) for v in row] for row in g], dtype='float64',
+             xs=list(range(w)), ys=list(range(h)), cdtype='float64', ykind='unit', xkind='unit', tv=[], mode='default',
+             max_distance='inf')
+    c.update(kw)
+    return c
+
+
+def precision_cases(rng):
+    """cell values that float32 cannot represent: the target test must see the raster's own dtype"""
+    out = []
+    h, w = rng.randint(3, 5), rng.randint(3, 6)
+    cells = [(r, c) for r in range(h) for c in range(w)]
+    # int64 ids around 2**24: only the odd one is a target
+    g = [[float(2 ** 24)] * w for _ in range(h)]
+    for r, c in rng.sample(cells, rng.randint(1, 3)):
+        g[r][c] = float(2 ** 24 + 1)
+    out.append(base_case(g, layout='precision-int64-ids', dtype='int64', tv=[float(2 ** 24 + 1)], mode='target_values'))
+    # float64 codes with a listed value that is not a float32 (0.1); 0.25 cells are not targets
+    g = [[0.25] * w for _ in range(h)]
+    for r, c in rng.sample(cells, rng.randint(1, 3)):
+        g[r][c] = 0.1
+    out.append(base_case(g, layout='precision-float64-code', tv=[0.1], mode='target_values',
+                         max_distance=rng.choice(['inf', 2.0])))
+    # default rule: tiny / huge float64 values are non-zero and finite, hence targets
+    g = [[0.0] * w for _ in range(h)]
+    for (r, c), v in zip(rng.sample(cells, 2), [1e-50, 1e39]):
+        g[r][c] = v
+    out.append(base_case(g, layout='precision-tiny-huge'))
+    return out
+
+
+def boundary_cases(rng):
+    """max_distance attained EXACTLY by some cell (no float rounding involved): radius 2 on a unit grid, Manhattan radius 3,
+    3-4-5 offsets; and max_distance = 0 given as 0.0 and as the int 0"""
+    out = []
+    h, w = rng.randint(5, 8), rng.randint(5, 8)
+    g = gen_layout(rng, h, w, 'single')
+    out.append(base_case(g, layout='boundary-radius2', max_distance=2.0))
+    g = gen_layout(rng, h, w, rng.choice(['single', 'multi']))
+    out.append(base_case(g, layout='boundary-manhattan3', metric='MANHATTAN', max_distance=3.0))
+    g = [[0] * 7 for _ in range(7)]
+    g[rng.choice([0, 1])][rng.choice([0, 1])] = 4
+    out.append(base_case(g, layout='boundary-345', max_distance=5.0, md_int=rng.random() < 0.5,
+                         ys=list(range(7))[::-1] if rng.random() < 0.5 else list(range(7))))
+    g = gen_layout(rng, rng.randint(2, 5), rng.randint(2, 5), 'sparse')
+    out.append(base_case(g, layout='max_distance-zero', max_distance=0.0, md_int=rng.random() < 0.5))
+    return out
+
+
 def canon_impl(res):
     """worker result -> ({name: grid}, {name: error})"""
     grids, errs = {}, {}
@@ -709,7 +817,7 @@ def nontrivial(case):
 def build_cases(ctx, n_main, n_small, n_gc):
     rng = ctx.rng
     cases = [dict(FIXTURE), dict(FIXTURE, max_distance=2.0), dict(FIXTURE, metric='MANHATTAN', max_distance=3.0),
-             dict(WITNESS)] + hard_cases()
+             dict(WITNESS)] + hard_cases() + precision_cases(rng) + boundary_cases(rng)
     for i in range(n_main):
         cases.append(gen_case(rng, i))
     for i in range(n_small):
@@ -752,7 +860,7 @@ def process_results(ctx, cases, results, what='numpy'):
 
 def run(ctx):
     if ctx.quick():
-        cases = build_cases(ctx, 32, 8, 5)
+        cases = build_cases(ctx, 27, 6, 4)
     else:
         cases = build_cases(ctx, 420, 120, 60)
     pool = ImplPool()
